@@ -572,7 +572,10 @@ def routerRecv (fuel : Nat) (st : St) (n i : Nat) (f : Frame) : St × Frame :=
         | none => routerProcess fuel st n i f
         | some acl =>
           if i == 2 then
-            -- `_process_dmz_outbound_frame`: outbound port from the ARP cache, else from the best route's next hop
+            -- `_process_dmz_outbound_frame` (repaired code): a layer-2 broadcast that is not for the firewall is dropped
+            -- before any look-up (`process_frame` would drop it after them)
+            if f.dstMac == bcastMac then (st, f) else
+            -- outbound port from the ARP cache, else from the best route's next hop
             let r1 := arpIfc fuel st n f.dstIp false false
             let r2 : St × Option Nat :=
               match r1.2 with
